@@ -219,6 +219,8 @@ pub enum Call {
     /// not a call on the stream: the caller moves the bar itself (set_position(40)), so that bar and
     /// stream offset differ when the next seek arrives
     BarSetPos,
+    /// reset() of the bar between two calls on the wrapped object: counting goes on from zero
+    BarReset,
 }
 
 /// Execute one call on any object with the needed traits; returns a printable result and, for the
@@ -317,7 +319,7 @@ fn do_call<T: Read + BufRead + Write + Seek>(t: &mut T, c: Call, last_fill: &mut
         Call::SeekCur(d) => fmt_seek(t.seek(SeekFrom::Current(d))),
         Call::SeekEnd(d) => fmt_seek(t.seek(SeekFrom::End(d))),
         Call::StreamPos => fmt_seek(t.stream_position()),
-        Call::BarSetPos => "bar".to_string(),
+        Call::BarSetPos | Call::BarReset => "bar".to_string(),
         Call::Rewind => match t.rewind() {
             Ok(()) => "Ok".into(),
             Err(e) => format!("Err({:?})", e.kind()),
@@ -342,9 +344,9 @@ pub enum Family {
 
 fn calls_of(f: Family) -> Vec<Call> {
     match f {
-        Family::Reader => vec![Call::Read(3), Call::Read(0), Call::ReadVectored, Call::ReadExact(4), Call::ReadToEnd, Call::ReadToString],
+        Family::Reader => vec![Call::Read(3), Call::Read(0), Call::ReadVectored, Call::ReadExact(4), Call::ReadToEnd, Call::ReadToString, Call::BarReset],
         Family::BufReader => vec![Call::FillBuf, Call::Consume(0), Call::Consume(2), Call::ConsumeAll, Call::Read(3), Call::ReadLine],
-        Family::Writer => vec![Call::Write(3), Call::Write(0), Call::WriteVectored, Call::WriteAll(5), Call::Flush],
+        Family::Writer => vec![Call::Write(3), Call::Write(0), Call::WriteVectored, Call::WriteAll(5), Call::Flush, Call::BarReset],
         Family::Seeker => vec![Call::SeekStart(5), Call::SeekCur(-2), Call::SeekCur(0), Call::SeekEnd(0), Call::SeekStart(150), Call::SeekCur(-99), Call::StreamPos, Call::Rewind, Call::Read(3), Call::BarSetPos],
     }
 }
@@ -381,6 +383,12 @@ fn diff_run_at(fam: Family, calls: &[Call], script: &[(usize, Ans)], step_ms: u6
     }
     for (i, &c) in calls.iter().enumerate() {
         clock::advance_ms(step_ms);
+        if c == Call::BarReset {
+            pb.reset();
+            model_pos = 0;
+            results.push("bar.reset()".to_string());
+            continue;
+        }
         if c == Call::BarSetPos {
             pb.set_position(40);
             model_pos = 40;
@@ -599,6 +607,8 @@ fn iter_part(tier: Tier, shard: Shard, stats: &mut Stats, case: &mut u64) {
     ops.extend(with_fold);
     for shape in &shapes {
         for f in 0..5usize {
+            // (with and without a length: finishing moves the position to the length only if there is one)
+            for blen in [Some(10u64), None] {
             for seq in &ops {
                 *case += 1;
                 if !shard.owns(*case) {
@@ -606,12 +616,12 @@ fn iter_part(tier: Tier, shard: Shard, stats: &mut Stats, case: &mut u64) {
                 }
                 stats.evaluations += 1;
                 stats.transitions += seq.len() as u64;
-                let hist = vec!["Iterator".to_string(), format!("inner yields {:?} (front and back)", shape), format!("on_finish {}", FINS[f]), format!("calls {:?}", seq)];
+                let hist = vec!["Iterator".to_string(), format!("inner yields {:?} (front and back)", shape), format!("on_finish {}", FINS[f]), format!("calls {:?}", seq), format!("bar length {:?}", blen)];
                 let r = catch(|| -> Result<(u64, bool), (String, String)> {
                     clock::reset();
                     let mk = || ScriptIter { front: shape.clone(), i: 0, back: shape.clone(), j: 0 };
                     let mut bare = mk();
-                    let pb = ProgressBar::with_draw_target(Some(10), ProgressDrawTarget::hidden()).with_finish(fin(f)).with_message("msg");
+                    let pb = ProgressBar::with_draw_target(blen, ProgressDrawTarget::hidden()).with_finish(fin(f)).with_message("msg");
                     let mut wrapped = mk().progress_with(pb.clone());
                     let mut yielded = 0u64;
                     let mut finished = false;
@@ -662,7 +672,7 @@ fn iter_part(tier: Tier, shard: Shard, stats: &mut Stats, case: &mut u64) {
                                     if !finished {
                                         finished = true;
                                         if f <= 2 {
-                                            model_pos = 10;
+                                            model_pos = blen.unwrap_or(model_pos);
                                         }
                                     }
                                 }
@@ -692,8 +702,9 @@ fn iter_part(tier: Tier, shard: Shard, stats: &mut Stats, case: &mut u64) {
                 match r {
                     Err(p) => stats.violation(Violation { class: format!("panic: {}", panic_class(&p)), config: "Iterator".into(), history: hist, detail: p }),
                     Ok(Err((class, detail))) => stats.violation(Violation { class: format!("Iterator: {class}"), config: "Iterator".into(), history: hist, detail }),
-                    Ok(Ok((h, nt))) => stats.state_outcome(h, nt),
+                    Ok(Ok((h, nt))) => stats.state_outcome(hash_of(&(h, blen)), nt),
                 }
+            }
             }
         }
     }
